@@ -344,14 +344,15 @@ def main(tier, seed, replay=None):
             # name the raise statements / helper calls that are out of order (Gen/T6 and Mini/Raises still compile)
             info["raise_statements_out_of_order"] = F.coq_show(
                 "c16census", "From Coq Require Import List String Bool NArith.\nFrom Verif Require Import Gen.T3 Gen.T6 Mini.Cli Mini.Raises.",
-                "(filter (fun s => negb (site_ok s)) raise_sites, filter (fun c => negb (call_ok c)) helper_calls)")
+                "(filter (fun s => negb (site_ok s)) raise_sites, filter (fun c => negb (call_ok c)) helper_calls, filter (fun a => negb (assert_ok a)) assert_sites)")
             info["what"] = ("a raise statement on the validate() path raises a class outside the documented families (and is not handled in place, not a guarded helper "
-                            "signal, not a listed internal guard) - theorem C16_raise_census / C16_helper_calls_guarded no longer checks; no input reaching it was found by the enumeration")
+                            "signal, not a listed internal guard) or an assert statement that is not among the listed ones - theorem C16_raise_census / C16_helper_calls_guarded / C16_assert_census no longer checks; no input reaching it was found by the enumeration")
         rep.violation(info, no_input=True)
     cov = F.proof_coverage(ob, [
         "translator/t3.py (fail-closed extraction of the except clauses, their exit_code assignments, the finally block, the final sys.exit and the early exits of cli.main(); class table of errors.py)",
         "coq/Mini/Cli.v: Python's except-clause dispatch modelled as 'first clause whose class occurs in the raised class's MRO'; an uncaught exception ends the interpreter with status 1",
         "translator/t4.py, t5.py (closure loops and the rdf list check of the shapes graph constructor), translator/t6.py (fail-closed census of every raise statement and of the calls of the caller-handled helpers in the modules of pyshacl/ on the validate() path; out of scope: cli.py, cli_rules.py, sh_http.py, __main__.py, validator_conformance.py, extras/)",
+        "coq/Mini/Raises.v listed_asserts: the 20 assert statements on the validate() path (each with the reason why its condition holds) are accepted by C16_assert_census",
         "coq/Mini/Raises.v internal_guards: 28 listed raise statements that check Python argument types of the API or invariants of the code (each with its reason in the file) are accepted by C16_raise_census as not reachable from RDF input",
         "exceptions raised IMPLICITLY (a failing expression, an rdflib or re error) are outside the census: for them the API half of the property is NOT a theorem, it is decided by the enumeration of failure causes of this run",
     ])
